@@ -219,26 +219,42 @@ def run(ctx: Ctx, rep: Report) -> None:
     if val is None:
         rep.violated("C12-R4", "puresnmp_plugins/security/usm.py", "USM report validation exists", "validate_usm_message vanished", key="usm|no-report-validation")
     else:
-        table: Dict[str, str] = {}
-        tname = None
+        # OID-keyed tables of the validator (one of them is the set of report OIDs that is tested)
+        tables: Dict[str, Dict[str, ast.AST]] = {}
         for n in own_nodes(val.node):
-            if isinstance(n, ast.Assign) and isinstance(n.value, ast.Dict) and isinstance(n.targets[0], ast.Name):
-                tname = n.targets[0].id
-                for k, v in zip(n.value.keys, n.value.values):
+            value = n.value if isinstance(n, (ast.Assign, ast.AnnAssign)) else None
+            tgt = (n.targets[0] if isinstance(n, ast.Assign) else n.target) if value is not None else None
+            if isinstance(value, (ast.Dict, ast.Set, ast.Tuple, ast.List)) and isinstance(tgt, ast.Name):
+                keys = value.keys if isinstance(value, ast.Dict) else value.elts
+                tab: Dict[str, ast.AST] = {}
+                for k in keys:
                     if isinstance(k, ast.Call) and k.args:
                         try:
-                            table[ctx.r.const(val.module, k.args[0])] = ctx.r.const(val.module, v)
+                            tab[ctx.r.const(val.module, k.args[0])] = k
                         except NotConstant:
                             pass
-        for oid, name in sorted(rfc.USM_STATS.items()):
-            rep.check(oid in table, "C12-R4", val.site(), f"{name} ({oid}) is recognised as an error report", f"table: {sorted(table)}", key=f"{val.key}|usmstats|{oid}")
+                if tab:
+                    tables[tgt.id] = tab
+        snmp_error = ctx.u.cls("puresnmp.exc:SnmpError")
+        tested: Optional[str] = None
         loop_ok = False
+        detail = ""
         for n in own_nodes(val.node):
             if isinstance(n, ast.For) and norm(n.iter).endswith(".varbinds"):
                 for sub in ast.walk(n):
-                    if isinstance(sub, ast.If) and norm(sub.test) == f"{norm(n.target)}.oid in {tname}" and any(isinstance(s, ast.Raise) and ctx.exc_class(val, s.exc) is not None and ctx.r.is_subclass(ctx.exc_class(val, s.exc), ctx.u.cls("puresnmp.exc:SnmpError")) for s in sub.body):
-                        loop_ok = True
-        rep.check(loop_ok, "C12-R4", val.site(), "every binding of the (report) PDU is looked up and a hit raises SnmpError", key=f"{val.key}|report-raise")
+                    if not (isinstance(sub, ast.If) and isinstance(sub.test, ast.Compare) and len(sub.test.ops) == 1 and isinstance(sub.test.ops[0], ast.In)):
+                        continue
+                    if norm(sub.test.left) != f"{norm(n.target)}.oid" or norm(sub.test.comparators[0]) not in tables:
+                        continue
+                    tested = norm(sub.test.comparators[0])
+                    raises = [s for s in sub.body if isinstance(s, ast.Raise)]
+                    classes = ctx.exc_classes(val, raises[0].exc) if raises else None
+                    loop_ok = bool(raises) and classes is not None and all(ctx.r.is_subclass(c, snmp_error) for c in classes)
+                    detail = f"raises {[c.name for c in classes] if classes is not None else 'an unresolved class'}" if raises else "the hit does not raise unconditionally"
+        table = tables.get(tested, {}) if tested else {}
+        for oid, name in sorted(rfc.USM_STATS.items()):
+            rep.check(oid in table, "C12-R4", val.site(), f"{name} ({oid}) is recognised as an error report", f"tested table `{tested}`: {sorted(table)}", key=f"{val.key}|usmstats|{oid}")
+        rep.check(loop_ok, "C12-R4", val.site(), "every binding of the (report) PDU is looked up and a hit raises SnmpError", detail, key=f"{val.key}|report-raise")
         proc = own_method(ctx, usm, "process_incoming_message")
         pcfg = ctx.cfg(proc)
         vnodes = [cfg_node_of(pcfg, n) for n in own_nodes(proc.node) if isinstance(n, ast.Call) and val in [c for c in ctx.r.callees(proc, n) if isinstance(c, FuncInfo)]]
